@@ -113,6 +113,7 @@ type FuncSpec struct {
 	Ensures  []Clause
 	Modifies []Expr
 	HasMod   bool // a modifies clause (possibly empty "modifies nothing") was given
+	SignalChans bool // "signal-channels": chan struct{} values are only ever closed, never sent on (checked syntactically for the package)
 	ModAny   bool // "modifies anything": no frame is claimed (entry points that run arbitrary handlers); callers under contract are refused
 	Loops    map[int]*LoopSpec
 	Unfolds  []Expr
@@ -501,7 +502,7 @@ var clauseKW = map[string]bool{
 	"spec": true, "func": true, "lemma": true, "guarded": true,
 	"requires": true, "ensures": true, "modifies": true, "ghost": true, "loop": true,
 	"invariant": true, "decreases": true, "unfold": true, "inline": true, "trusted": true,
-	"pure": true, "atomic": true, "param": true, "induction": true, "havoc": true, "nopanic": true, "unroll": true, "known-finding": true, "apply": true, "assert": true, "witness": true, "cs-pure": true, "inline-call": true, "lockinv": true, "opaque-calls": true,
+	"pure": true, "atomic": true, "param": true, "induction": true, "havoc": true, "nopanic": true, "unroll": true, "known-finding": true, "apply": true, "assert": true, "witness": true, "cs-pure": true, "inline-call": true, "lockinv": true, "opaque-calls": true, "signal-channels": true,
 }
 
 type rawClause struct {
@@ -619,6 +620,11 @@ func ParseContractFile(path string, src []byte, ps *PkgSpec) error {
 			a := strings.SplitN(parts[0], ".", 2)
 			b := strings.SplitN(parts[2], ".", 2)
 			ps.Guards = append(ps.Guards, &GuardSpec{Type: a[0], Fields: []string{a[1]}, Mutex: b[1]})
+		case "signal-channels":
+			if cur == nil {
+				return fmt.Errorf("%s:%d: signal-channels outside func", path, rc.line)
+			}
+			cur.SignalChans = true
 		case "opaque-calls":
 			if cur == nil {
 				return fmt.Errorf("%s:%d: opaque-calls outside func", path, rc.line)
